@@ -317,12 +317,15 @@ end loop
 
 /-! ## the preamble of a round -/
 
+/-- the Spec's clock and failure environment at the start of a round -/
+def envA (a : A) (r : Round) : A :=
+  { a with now := a.now + r.dt,
+           fail := (r.failSet.filter (·.1 ≤ a.nAccepted)).foldl
+             (fun fl (p : Nat × Option FailMode) => setFail fl p.1 p.2) a.fail }
+
 /-- clock and failure environment -/
-theorem sim_env {cfg : Cfg} {a : A} {s : State} (hs : Sim cfg a s) (r : Round) :
-    Sim cfg { a with now := a.now + r.dt,
-                     fail := (r.failSet.filter (·.1 ≤ a.nAccepted)).foldl
-                       (fun fl (p : Nat × Option FailMode) => setFail fl p.1 p.2) a.fail } (envStep s r) := by
-  unfold envStep
+theorem sim_env {cfg : Cfg} {a : A} {s : State} (hs : Sim cfg a s) (r : Round) : Sim cfg (envA a r) (envStep s r) := by
+  unfold envStep envA
   exact ⟨hs.uids, hs.nacc, by show _ = _; rw [hs.nacc, hs.fail], hs.buf, hs.live, hs.mods, hs.w, hs.logIn, hs.logOut,
     hs.logConn, hs.logNodup, hs.logBound⟩
 
@@ -444,5 +447,297 @@ theorem sim_accept {cfg : Cfg} {a : A} {s : State} (hs : Sim cfg a s) (wA wM : L
 theorem sim_setW {cfg : Cfg} {a : A} {s : State} (hs : Sim cfg a s) (wA wM : List Nat)
     (hw : ∀ v, (a.live v).isSome → (v ∈ wA ↔ v ∈ wM)) : Sim cfg { a with w := wA } { s with wlist := wM } :=
   ⟨hs.uids, hs.nacc, hs.fail, hs.buf, hs.live, hs.mods, hw, hs.logIn, hs.logOut, hs.logConn, hs.logNodup, hs.logBound⟩
+
+/-! ## one round, both sides in the same shape -/
+
+/-- the Spec's abstract state after clock, failure environment, `accept` and the writable set -/
+def preA (a : A) (r : Round) : A :=
+  let a1 : A := envA a r
+  let liveBefore := (a1.mods.filter (·.alive)).map (·.uid)
+  let reads := r.reads.filter (fun rd => liveBefore.contains rd.uid)
+  let a2 : A := if r.accept then { a1 with nAccepted := a1.nAccepted + 1, mods := a1.mods ++ [{ uid := a1.nAccepted + 1 }] } else a1
+  let live := (a2.mods.filter (·.alive)).map (·.uid)
+  if r.accept || !reads.isEmpty then { a2 with w := if reads.isEmpty then [] else r.writable.filter (live.contains ·) } else a2
+
+/-- the frames of the round the Spec expects to be read -/
+def preReads (a : A) (r : Round) : List Read :=
+  r.reads.filter (fun rd => ((a.mods.filter (·.alive)).map (·.uid)).contains rd.uid)
+
+/-- the abstract state in which the Spec starts to replay the frames read: the events before the first `rd` marker
+    (the `accept` log line) checked and their departures applied -/
+def goStart (cfg : Cfg) (a3 : A) (pre : List Ev) : A :=
+  Spec.applyDepartures (Spec.checkDepartures cfg
+    (a3.chk ((Spec.closes pre).isEmpty || !(Spec.wfails pre).isEmpty) "C07"
+      "a connection was closed before any frame was read in this round") none pre) pre
+
+/-- the end of `Spec.round`: tallies for the statistics checks and the periodic section -/
+def roundEnd (cfg : Cfg) (a : A) (pre : List Ev) (segs : List (Nat × List Ev)) : A :=
+  let a := if segs.isEmpty then a else (pre :: (segs.dropLast.map (·.2))).foldl (Spec.noteMgrFrames cfg) a
+  let lastEvs := match segs.getLast? with | some s => s.2 | none => pre
+  Spec.tail cfg a lastEvs
+
+/-- the rest of `Spec.round` -/
+def roundRest (cfg : Cfg) (a3 : A) (reads : List Read) (pre : List Ev) (segs : List (Nat × List Ev)) : A :=
+  roundEnd cfg (Spec.round.go cfg (goStart cfg a3 pre) reads segs (reads.length + segs.length + 1)) pre segs
+
+theorem goStart_ext (cfg : Cfg) (a3 : A) (pre : List Ev) :
+    ∃ X, Spec.CoreExt others a3 X ∧ goStart cfg a3 pre = Spec.applyDepartures X pre :=
+  ⟨_, (ext_others (Spec.errExt_chk ["C07"] a3 _ "C07" _ (by simp))).trans
+    (ext_others (Spec.checkDepartures_ext cfg _ none pre)), rfl⟩
+
+theorem roundEnd_ext (cfg : Cfg) (a : A) (pre : List Ev) (segs : List (Nat × List Ev)) :
+    Spec.CoreExt others a (roundEnd cfg a pre segs) := by
+  unfold roundEnd
+  extract_lets b lastEvs
+  have hb : Spec.CoreExt others a b := by
+    simp only [b]; split
+    · exact Spec.CoreExt.refl _ _
+    · exact core_others (Spec.coreExt_foldl [] _ (fun x y => Spec.noteMgrFrames_ext cfg x y) _ _) (by simp)
+  exact hb.trans (core_others (Spec.tail_ext cfg b lastEvs))
+
+theorem round_eq (cfg : Cfg) (a : A) (r : Round) (evs : List Ev) :
+    Spec.round cfg a r evs = roundRest cfg (preA a r) (preReads a r) (Spec.splitRd evs).1 (Spec.splitRd evs).2 := by
+  unfold Spec.round roundRest roundEnd goStart preA preReads envA
+  rfl
+
+/-- the model state in which the frames of the round are read -/
+def preS (cfg : Cfg) (s : State) (r : Round) : State :=
+  let s1 := envStep s r
+  let reads := r.reads.filter (fun rd => (s1.find rd.uid).isSome)
+  if r.accept || !reads.isEmpty then
+    let s2 := if r.accept then acceptStep cfg s1 else s1
+    { s2 with wlist := if reads.isEmpty then [] else r.writable.filter ((s2.mods.map (·.uid)).contains ·) }
+  else s1
+
+def readsS (s : State) (r : Round) : List Read := r.reads.filter (fun rd => ((envStep s r).find rd.uid).isSome)
+
+theorem step_eq (cfg : Cfg) (s : State) (r : Round) (hc : s.crashed = none) :
+    step cfg s r = ticks cfg (readAll cfg (readsS s r) (preS cfg s r)) := by
+  unfold step ioStep preS readsS
+  simp only [hc, Option.isSome_none, Bool.false_eq_true, if_false]
+  split
+  · rfl
+  · rename_i h
+    have : (r.reads.filter (fun rd => ((envStep s r).find rd.uid).isSome)) = [] := by
+      have h' : (r.accept || !(r.reads.filter (fun rd => ((envStep s r).find rd.uid).isSome)).isEmpty) = false := by
+        simpa using h
+      rw [Bool.or_eq_false_iff] at h'
+      have := h'.2
+      simpa using this
+    rw [this]; rfl
+
+theorem mem_filter_of {l : List Nat} {p q : Nat → Bool} {v : Nat} (hp : p v = true) (hq : q v = true) :
+    v ∈ l.filter p ↔ v ∈ l.filter q := by rw [List.mem_filter, List.mem_filter, hp, hq]
+
+theorem applyDepartures_nil (a : A) : Spec.applyDepartures a [] = a := rfl
+
+theorem mem_of_find_some {s : State} {v : Nat} {m : Module} (h : s.find v = some m) : v ∈ s.mods.map (·.uid) := by
+  unfold State.find at h
+  exact List.mem_map.mpr ⟨m, List.mem_of_find?_eq_some h, find_uid h⟩
+
+theorem applyDepartures_accept (a : A) (e : List Ev) (wA : List Nat) (h : (Spec.closes e).contains (a.nAccepted + 1) = false) :
+    Spec.applyDepartures { a with nAccepted := a.nAccepted + 1, mods := a.mods ++ [{ uid := a.nAccepted + 1 }], w := wA } e =
+      { Spec.applyDepartures a e with
+        nAccepted := (Spec.applyDepartures a e).nAccepted + 1,
+        mods := (Spec.applyDepartures a e).mods ++ [{ uid := (Spec.applyDepartures a e).nAccepted + 1 }], w := wA } := by
+  rw [Spec.applyDepartures_eq, Spec.applyDepartures_eq]
+  simp only [List.map_append, List.map_cons, List.map_nil]
+  have : Spec.killIn (Spec.closes e) ({ uid := a.nAccepted + 1 } : AMod) = { uid := a.nAccepted + 1 } := by
+    unfold Spec.killIn; simp only [h, Bool.false_eq_true, if_false]
+  rw [this]
+
+section pre
+variable {cfg : Cfg} (ok : CfgOK cfg) (hfuel : cfg.fuel = 0)
+include ok hfuel
+
+/-- **The preamble of a round.**  After clock, failure environment, `accept` (with its INFO log line, which may drop
+connections) and the sampling of the writable set, the Spec's state — with the departures of the events so far
+applied — simulates the model's. -/
+theorem pre_ok {a : A} {s : State} (inv : Inv cfg a s) (r : Round) (hwf : ∀ rd ∈ r.reads, rd.uid ≠ 0) :
+    ∃ eAcc, (preS cfg s r).out = s.out ++ eAcc ∧ (∀ u, Ev.rd u ∉ eAcc) ∧
+      Sim cfg (Spec.applyDepartures (preA a r) eAcc) (preS cfg s r) ∧ Top cfg (preS cfg s r) ∧ J (preS cfg s r) ∧
+      preReads a r = readsS s r ∧ (preA a r).errs = a.errs := by
+  have hs1 := sim_env inv.sim r
+  have t1 : Top cfg (envStep s r) := top_same ok hfuel inv.top _ rfl rfl rfl
+  have j1 : J (envStep s r) := J_same inv.j rfl rfl rfl
+  have hreads : preReads a r = readsS s r := by
+    unfold preReads readsS
+    apply List.filter_congr
+    intro rd hrd
+    exact liveList_contains hs1 rd.uid (hwf rd hrd)
+  have hreads' : r.reads.filter (fun rd => ((a.mods.filter (·.alive)).map (·.uid)).contains rd.uid) =
+      r.reads.filter (fun rd => ((envStep s r).find rd.uid).isSome) := hreads
+  have ha1m : (envA a r).mods = a.mods := rfl
+  have ha1e : (envA a r).errs = a.errs := rfl
+  unfold preA preS
+  simp only [ha1m, hreads']
+  generalize envA a r = a1 at *
+  generalize hrs : r.reads.filter (fun rd => ((envStep s r).find rd.uid).isSome) = reads
+  generalize hs1' : envStep s r = s1 at hs1 t1 j1
+  have hout1 : s1.out = s.out := by rw [← hs1']; rfl
+  rw [← ha1m]
+  cases hacc : r.accept with
+  | false =>
+    simp only [Bool.false_or, Bool.false_eq_true, if_false]
+    by_cases hre : reads.isEmpty = true
+    · simp only [hre, Bool.not_true, Bool.false_eq_true, if_false]
+      exact ⟨[], by simp [hout1], by simp, hs1, t1, j1, hreads, ha1e⟩
+    · have hre' : reads.isEmpty = false := by simpa using hre
+      simp only [hre', Bool.not_false, if_true, Bool.false_eq_true, if_false]
+      refine ⟨[], by simp [hout1], by simp, ?_, top_same ok hfuel t1 _ rfl rfl rfl, J_same j1 rfl rfl rfl, hreads, ha1e⟩
+      rw [applyDepartures_nil]
+      refine sim_setW hs1 _ _ (fun v hl => ?_)
+      obtain ⟨am, ham⟩ := Option.isSome_iff_exists.mp hl
+      obtain ⟨hg, hal⟩ := Spec.live_some.mp ham
+      have hv0 : v ≠ 0 := by rw [← Spec.get_uid hg]; exact uid_pos hs1.uids (Spec.get_mem hg)
+      have h1 : ((a1.mods.filter (·.alive)).map (·.uid)).contains v = true := by
+        rw [liveList_contains hs1 v hv0]; exact (hs1.live v hv0).mp hl
+      obtain ⟨mv, hmv⟩ := Option.isSome_iff_exists.mp ((hs1.live v hv0).mp hl)
+      have h2 : (s1.mods.map (·.uid)).contains v = true := by
+        rw [List.contains_iff_mem]; exact mem_of_find_some hmv
+      exact mem_filter_of (p := fun x => ((a1.mods.filter (·.alive)).map (·.uid)).contains x)
+        (q := fun x => (s1.mods.map (·.uid)).contains x) h1 h2
+  | true =>
+    simp only [Bool.true_or, if_true]
+    -- the INFO log line of `accept`
+    have nL := logTop_nest cfg 20 s1
+    have tL := top_log ok hfuel t1 20
+    have jL : J (logAt cfg (fwdTop cfg) 20 s1) := logAt_J (fwdTop_J cfg) j1 20
+    obtain ⟨eAcc, heAcc, hnoRd, _⟩ := nL.ext
+    have hsL := sim_quiet hs1 t1.aopen tL.aopen nL jL eAcc heAcc
+    generalize hsLdef : logAt cfg (fwdTop cfg) 20 s1 = sL at *
+    have hnuid : sL.nextUid = s1.nextUid := nL.nuid
+    -- the uid about to be handed out was never closed
+    have hfreshA : (Spec.closes eAcc).contains (a1.nAccepted + 1) = false := by
+      cases hc : (Spec.closes eAcc).contains (a1.nAccepted + 1) with
+      | false => rfl
+      | true =>
+        have hmem : Ev.close (a1.nAccepted + 1) ∈ eAcc := (mem_closes eAcc _).mp (by simpa using hc)
+        have hphi := jL.phi (a1.nAccepted + 1)
+        have hpos : 0 < closeCnt sL.out (a1.nAccepted + 1) := by
+          rw [heAcc]; unfold closeCnt; rw [List.countP_append]
+          have := closeCnt_pos hmem; unfold closeCnt at this; omega
+        unfold phi at hphi
+        have : sL.nextUid < a1.nAccepted + 1 := by rw [hnuid, hs1.nacc]; omega
+        simp only [this, if_true] at hphi
+        omega
+    have hacS : acceptStep cfg s1 = { sL with nextUid := sL.nextUid + 1, mods := sL.mods ++ [{ uid := sL.nextUid + 1 }] } := by
+      unfold acceptStep; rw [hsLdef]
+    rw [hacS]
+    refine ⟨eAcc, by show sL.out = _; rw [heAcc, hout1], hnoRd, ?_, ?_, ?_, hreads, ha1e⟩
+    · rw [applyDepartures_accept a1 eAcc _ hfreshA]
+      obtain ⟨c1, c2, c3, c4, _⟩ := Spec.applyDepartures_core a1 eAcc
+      refine sim_accept hsL _ _ (fun v hv => ?_)
+      by_cases hre : reads.isEmpty = true
+      · simp only [hre, if_true]
+      · have hre' : reads.isEmpty = false := by simpa using hre
+        simp only [hre', Bool.false_eq_true, if_false]
+        have h1 : ((List.filter (fun x => x.alive) (a1.mods ++ [({ uid := a1.nAccepted + 1 } : AMod)])).map (·.uid)).contains v
+            = true := by
+          rw [List.contains_iff_mem, List.mem_map]
+          rcases hv with hv | hv
+          · exact ⟨{ uid := a1.nAccepted + 1 }, List.mem_filter.mpr ⟨by simp, rfl⟩, by rw [hv, c4]⟩
+          · obtain ⟨am, ham⟩ := Option.isSome_iff_exists.mp hv
+            rw [Spec.applyDepartures_live] at ham
+            split at ham
+            · cases ham
+            · obtain ⟨hg, hal⟩ := Spec.live_some.mp ham
+              exact ⟨am, List.mem_filter.mpr ⟨List.mem_append.mpr (Or.inl (Spec.get_mem hg)), hal⟩, Spec.get_uid hg⟩
+        have h2 : ((sL.mods ++ [({ uid := sL.nextUid + 1 } : Module)]).map (·.uid)).contains v = true := by
+          rw [List.contains_iff_mem, List.map_append, List.mem_append]
+          rcases hv with hv | hv
+          · right; rw [hv, c4, hs1.nacc, hnuid]; simp
+          · left
+            obtain ⟨am, ham⟩ := Option.isSome_iff_exists.mp hv
+            have hv0 : v ≠ 0 := by
+              obtain ⟨hg, _⟩ := Spec.live_some.mp ham
+              rw [← Spec.get_uid hg]; exact uid_pos hsL.uids (Spec.get_mem hg)
+            obtain ⟨mv, hmv⟩ := Option.isSome_iff_exists.mp ((hsL.live v hv0).mp hv)
+            exact mem_of_find_some hmv
+        exact mem_filter_of
+          (p := fun x => ((List.filter (fun x => x.alive) (a1.mods ++ [({ uid := a1.nAccepted + 1 } : AMod)])).map (·.uid)).contains x)
+          (q := fun x => ((sL.mods ++ [({ uid := sL.nextUid + 1 } : Module)]).map (·.uid)).contains x) h1 h2
+    · have := top_accept ok hfuel t1
+      rw [hacS] at this
+      exact top_same ok hfuel this _ rfl rfl rfl
+    · have := accept_J cfg j1
+      rw [hacS] at this
+      exact J_same this rfl rfl rfl
+
+end pre
+
+/-! ## one round -/
+
+/-- rounds the generator produces: frames are read from connections, never from the manager's own table entry -/
+def RoundWF (r : Round) : Prop := ∀ rd ∈ r.reads, rd.uid ≠ 0
+
+section round
+variable {cfg : Cfg} (ok : CfgOK cfg) (hfuel : cfg.fuel = 0) (hperm : OrdPerm cfg)
+include ok hfuel hperm
+
+/-- **One round.**  If the abstract state simulates the model state, then after the model has played round `r` and the
+Spec has replayed the round against the events the model wrote in it, the simulation holds again and no clause of a
+proved property was reported violated. -/
+theorem round_ok {a : A} {s : State} (inv : Inv cfg a s) (r : Round) (hwf : RoundWF r) (evs : List Ev)
+    (he : (step cfg s r).out = s.out ++ evs) :
+    Inv cfg (Spec.round cfg a r evs) (step cfg s r) ∧
+    (∀ p ∈ proven, Spec.NoErr p a → Spec.NoErr p (Spec.round cfg a r evs)) := by
+  rw [round_eq]
+  rw [step_eq cfg s r inv.top.good.ok] at he ⊢
+  obtain ⟨eAcc, hPout, hnoAcc, hsP, tP, jP, hreads, herrs⟩ := pre_ok ok hfuel inv r hwf
+  rw [hreads]
+  have hwf' : ∀ rd ∈ readsS s r, rd.uid ≠ 0 := fun rd hrd => hwf rd (List.mem_filter.mp hrd).1
+  generalize readsS s r = reads at *
+  generalize preS cfg s r = sP at *
+  generalize preA a r = a3 at *
+  have tR := top_readAll ok hfuel reads tP
+  have jR : J (readAll cfg reads sP) := readAll_J cfg reads jP
+  have q : QuietTo cfg (readAll cfg reads sP) (ticks cfg (readAll cfg reads sP)) :=
+    ⟨ticks_nest cfg _, top_ticks ok hfuel tR, ticks_J cfg jR, qa_ticks cfg _⟩
+  obtain ⟨E1, hE1⟩ := readAll_out ok hfuel reads sP tP
+  obtain ⟨E2, hE2, _, _⟩ := q.nest.ext
+  have hE : (ticks cfg (readAll cfg reads sP)).out = sP.out ++ (E1 ++ E2) := by rw [hE2, hE1, List.append_assoc]
+  have hevs : evs = eAcc ++ (E1 ++ E2) := by
+    have : s.out ++ evs = s.out ++ (eAcc ++ (E1 ++ E2)) := by rw [← he, hE, hPout, List.append_assoc]
+    exact List.append_cancel_left this
+  have hsplit := splitRd_append eAcc (E1 ++ E2) hnoAcc
+  rw [← hevs] at hsplit
+  obtain ⟨X0, hX0, hgs0⟩ := goStart_ext cfg a3 eAcc
+  have inv0 : Inv cfg (goStart cfg a3 eAcc) sP := by
+    rw [hgs0]; exact ⟨sim_coreExt hsP (Spec.applyDepartures_coreExt hX0 eAcc), tP, jP⟩
+  have herr0 : ∀ p ∈ proven, Spec.NoErr p a → Spec.NoErr p (goStart cfg a3 eAcc) := by
+    intro p hp hn
+    rw [hgs0]
+    exact noErr_applyDepartures eAcc (hX0.noErr (proven_not hp) (by unfold Spec.NoErr; rw [herrs]; exact hn))
+  unfold roundRest
+  rcases readAll_go ok hfuel hperm reads (goStart cfg a3 eAcc) sP (ticks cfg (readAll cfg reads sP)) (E1 ++ E2)
+      (reads.length + (Spec.splitRd (E1 ++ E2)).2.length + 1) inv0 hwf' (by omega) q hE with ⟨hnoE, hid⟩ | ⟨hp1, hp2, hp3, hp4⟩
+  · -- no frame was read in this round
+    have hs2 : Spec.splitRd (E1 ++ E2) = (E1 ++ E2, []) := splitRd_noRd _ hnoE
+    rw [hsplit, hs2, ← hevs]
+    simp only [List.length_nil, Nat.add_zero]
+    obtain ⟨X, hX, hgs⟩ := goStart_ext cfg a3 evs
+    have hsimT : Sim cfg (goStart cfg a3 evs) (ticks cfg (readAll cfg reads sP)) := by
+      rw [hgs, hevs, ← applyDepartures_append]
+      have h1 : Sim cfg (Spec.applyDepartures (Spec.applyDepartures a3 eAcc) (E1 ++ E2)) (ticks cfg (readAll cfg reads sP)) := by
+        have hn : Nest sP (ticks cfg (readAll cfg reads sP)) := by rw [hid]; exact ticks_nest cfg sP
+        exact sim_quiet hsP tP.aopen q.top.aopen hn q.j (E1 ++ E2) hE
+      rw [applyDepartures_append] at h1 ⊢
+      exact sim_coreExt h1 (Spec.applyDepartures_coreExt hX _)
+    have hgo := go_nil_ext cfg reads (goStart cfg a3 evs) (reads.length + 1)
+    have hend := roundEnd_ext cfg (Spec.round.go cfg (goStart cfg a3 evs) reads [] (reads.length + 1)) evs []
+    have hall : Spec.CoreExt others (goStart cfg a3 evs) (roundEnd cfg (Spec.round.go cfg (goStart cfg a3 evs) reads []
+        (reads.length + 1)) evs []) := (ext_others hgo).trans hend
+    refine ⟨⟨sim_coreExt hsimT hall, q.top, q.j⟩, fun p hp hn => hall.noErr (proven_not hp) ?_⟩
+    rw [hgs]
+    exact noErr_applyDepartures evs (hX.noErr (proven_not hp) (by unfold Spec.NoErr; rw [herrs]; exact hn))
+  · -- at least one frame was read
+    rw [hsplit, hp1, List.append_nil]
+    have hend := roundEnd_ext cfg (Spec.round.go cfg (goStart cfg a3 eAcc) reads (Spec.splitRd (E1 ++ E2)).2
+      (reads.length + (Spec.splitRd (E1 ++ E2)).2.length + 1)) eAcc (Spec.splitRd (E1 ++ E2)).2
+    exact ⟨⟨sim_coreExt hp3.sim hend, hp3.top, hp3.j⟩,
+      fun p hp hn => hend.noErr (proven_not hp) (hp4 p hp (herr0 p hp hn))⟩
+
+end round
 
 end Pyrtma.Mgr
